@@ -95,7 +95,8 @@ var hGlobPool = [][]hGlob{
 	{{"src/?.txt", false}},
 }
 
-var hInitialFiles = []string{"src/a.txt", "src/b.txt", "src/skip1.txt", "src/sub/c.txt", "src/sub/deep/d.txt", "other/z.txt"}
+// (src/A.txt and src/a.txt differ only in case: the order in which matched files are fingerprinted is a total order)
+var hInitialFiles = []string{"src/a.txt", "src/b.txt", "src/skip1.txt", "src/sub/c.txt", "src/sub/deep/d.txt", "src/A.txt", "other/z.txt"}
 
 func (t *hTask) method(p *hProj) string {
 	if t.Method != "" {
